@@ -74,13 +74,14 @@ Definition leader_write (cfg : config) (n : node) (req : write_req) (ts : N) : n
 Definition entries_after (co : Z) (log : list log_entry) : list log_entry :=
   filter (fun e => (co <? le_offset e)%Z) log.
 
-(* close + new controller + NewTerm + BecomeLeader: the DB is reopened, the term is stored, the entries after
-   the DB's commit offset are applied.  [None] = BecomeLeader succeeded. *)
-Definition leader_restart (cfg : config) (n : node) (term : Z) (ts : N) : node * option (Z * err_kind) :=
+(* close + new controller + NewTerm(term, options) + BecomeLeader: the DB is reopened, the term and its options are
+   stored and notifications switched accordingly ([en] = NewTermOptions.EnableNotifications; no options = true), the
+   entries after the DB's commit offset are applied.  [None] = BecomeLeader succeeded. *)
+Definition leader_restart (cfg : config) (n : node) (term : Z) (en : bool) (ts : N) : node * option (Z * err_kind) :=
   match restart (n_st n) with
   | Err e => (n, Some ((-1)%Z, e))
   | Ok s =>
-      let s1 := update_term s term true ts in
+      let s1 := enable_notifications (update_term s term en ts) en in
       match read_commit_offset s1 with
       | Err e => (mkNode s1 (n_log n), Some ((-1)%Z, e))
       | Ok co =>
